@@ -36,7 +36,7 @@ ASSUMPTIONS = [
 ]
 
 QUANTS = ["modulus_adiabatic", "modulus_isothermal", "bulk_modulus_voigt_reuss_hill", "shear_modulus_voigt_reuss_hill",
-          "primary_velocities", "tp:modulus_adiabatic", "tp:volumes", "static_p_array", "v_array"]
+          "primary_velocities", "tp:modulus_adiabatic", "tp:modulus_isothermal", "tp:volumes", "static_p_array", "v_array"]
 OUTPUT = {"pressure_base": ["cij", "bm_VRH", "G_VRH", "v", "vs", "vp", "cij_t"], "volume_base": ["p", "cij"]}
 # data set A additionally uses the dict form with overrides (must not leak into later writes of B)
 OUTPUT_A = {"pressure_base": [{"keyword": "cij", "unit": "kbar"}, "bm_VRH", {"keyword": "G_VRH", "unit": "Pa"}, "v",
@@ -99,6 +99,10 @@ class GoldenServer:
                 warnings.simplefilter("ignore")
                 calc = cc.Calculator(path)
                 res = {"read": {q: snapshot(calc, q) for q in QUANTS}}
+                # the same quantities read in the opposite order from a second fresh object must be identical
+                calc2 = cc.Calculator(path)
+                rev = {q: snapshot(calc2, q) for q in reversed(QUANTS)}
+                res["order_dependent"] = [q for q in QUANTS if not same(res["read"][q], rev[q])]
                 d = tempfile.mkdtemp(prefix="cijc14g-")
                 old = os.getcwd()
                 os.chdir(d)
@@ -188,6 +192,9 @@ def make_machine(ctx, server):
                 status, res = server.golden((name, repr(sorted(s.items()))), path)
                 if status != "ok":
                     raise PropertyViolation("C14/crash/fresh-process", "calculation fails in a fresh process: %s" % res, self.case())
+                if res.get("order_dependent"):
+                    raise PropertyViolation("C14/read-order-dependence", "in a fresh process %r depend on the order in which results are read" % (
+                        res["order_dependent"],), self.case())
                 self.first[(name, "write")] = res["write"]
                 for q in QUANTS:
                     self.first[(name, "read", q)] = res["read"][q]
@@ -447,6 +454,16 @@ def replay(ctx, payload):
 
 
 def replay_history(ctx, case):
+    try:
+        _replay_history(ctx, case)
+    except PropertyViolation:
+        raise
+    except Exception as e:  # noqa  -- a crash of the code under test while re-running a saved history
+        from ..runner import crash_site
+        raise PropertyViolation("C14/crash/%s" % crash_site(e), "%s: %s" % (type(e).__name__, str(e)[:200]), case)
+
+
+def _replay_history(ctx, case):
     import cij.core.calculator as cc
     dirs, data, calc, first = [], {}, {}, {}
     try:
@@ -462,6 +479,8 @@ def replay_history(ctx, case):
         try:
             for name in data:
                 status, res = server.golden((name,), data[name])
+                if status == "ok" and res.get("order_dependent"):
+                    raise PropertyViolation("C14/read-order-dependence", "%r depend on the read order" % (res["order_dependent"],), case)
                 if status == "ok":
                     first[(name, "write")] = res["write"]
                     for q in QUANTS:
